@@ -241,7 +241,11 @@ RejChains == <<
   <<"h", ">=", "k", ">", "n">>,
   <<"n", "<", "k", "<=", "h">>,
   <<"n", "==", "k", "<", "h">>,
-  <<"n", "<", "k", ">=", "h", "<", "k">>
+  <<"n", "<", "k", ">=", "h", "<", "k">>,
+  \* `**' is ONE token: in front of a cell it is not `*' followed by the prefix `*' (n**c is int ** mut int, ill-typed)
+  <<"n", "**", "c">>,
+  <<"n", "+", "k", "**", "c">>,
+  <<"n", "**", "c", "+", "k">>
 >>
 RejAll == RejIdioms \o RejChains
 
